@@ -165,8 +165,10 @@ def resolve_after_none(seed):
         c0 = pep.list_of_constraints[0] if pep.list_of_constraints else None
         if c0 is not None:
             held.append(('constraint', c0.eval))
+            held.append(('multiplier of a constraint', c0.eval_dual))
         for m in h.get('lmis', []):
             held.append(('LMI', m.eval))
+            held.append(('multiplier of an LMI', m.eval_dual))
         for _, fn in held:
             fn()                                                              # read after the successful solve (values get stored)
         if template == 'T_user_lmi':
@@ -292,7 +294,7 @@ def dimension_reduction(name, seed, heuristic, tol_dr=1e-4, eig_reg=None):
         fails[:] = [f for f in fails if f[1] != 'objective']
         fails[:] = [('C14',) + f[1:] if f[0] == 'C02' else f for f in fails]
         tols = [c[2] for c in getattr(w, 'heuristic_calls', []) if c[0] == 'prepare']
-        if tols != [tol_dr] or any(type(x) is not type(tol_dr) for x in tols):
+        if tols != [tol_dr]:
             fails.append(('C14', 'stated_tolerance', 'the objective is anchored with tolerance(s) %r, the stated tolerance is %r' % (tols, tol_dr)))
         calls = getattr(w, 'solve_calls', [])
         if len(calls) >= 2 and any(c != calls[0] for c in calls[1:]):
